@@ -9,7 +9,13 @@ import (
 	"wrverif/render"
 )
 
+// TestProbe dumps the laid-out boxes of the document in $PROBE (debugging aid for replaying findings):
+//
+//	PROBE='<body><div id=a …>' go test -v -tags verif -run TestProbe -count=1 ./c10
 func TestProbe(t *testing.T) {
+	if os.Getenv("PROBE") == "" {
+		t.Skip("PROBE not set")
+	}
 	render.Quiet()
 	fonts, err := render.NewFonts("/repo")
 	if err != nil {
